@@ -712,7 +712,7 @@ func TestCheck(t *testing.T) {
 	for _, sch := range schedules(depth) {
 		reps := 1
 		if len(sch) > 0 {
-			reps = r.Pick(4, 12)
+			reps = r.Pick(4, 30)
 		}
 		for k := 0; k < reps; k++ {
 			list = append(list, scenario{Schedule: sch, DropK: 1 + rng.Intn(5), Calls: mkCalls(), Workers: 1 + rng.Intn(4), Stop: rng.Intn(3) != 0})
@@ -728,7 +728,7 @@ func TestCheck(t *testing.T) {
 		}
 	}
 	// many commands racing with repeated drops (the window between a client dying and the dispatcher noticing)
-	for k := 0; k < r.Pick(150, 2500); k++ {
+	for k := 0; k < r.Pick(150, 6000); k++ {
 		var cs []call
 		for i := 0; i < 12+rng.Intn(20); i++ {
 			if rng.Intn(3) == 0 {
@@ -745,12 +745,12 @@ func TestCheck(t *testing.T) {
 	}
 	r.Count("scenarios", int64(len(list)))
 	h.Parallel(len(list), 16, func(i int) { run(r, i, list[i]) })
-	nOff := r.Pick(40, 600)
+	nOff := r.Pick(40, 2000)
 	h.Parallel(nOff, 16, func(i int) {
 		stopWhileOffline(r, i, []string{"dial-refused", "no-connack"}[i%2], 1+i%9)
 	})
 	r.Count("stop_while_offline_runs", int64(nOff))
-	nRace := r.Pick(120, 2500)
+	nRace := r.Pick(120, 6000)
 	h.Parallel(nRace, 16, func(i int) { startStopRace(r, i) })
 	r.Count("start_stop_race_runs", int64(nRace))
 	h.Exit(r.Finish(30))
